@@ -7,7 +7,11 @@ patch=$(realpath "$1"); shift
 wt=/tmp/vtry.$$
 git -C /repo worktree add -q --detach "$wt" HEAD || exit 9
 trap 'git -C /repo worktree remove --force "$wt"; rm -rf /verif/run/alt-* /verif/bin/alt-*' EXIT
-if ! git -C "$wt" apply "$patch"; then echo "PATCH DOES NOT APPLY"; exit 8; fi
+if ! git -C "$wt" apply "$patch" 2>/dev/null; then
+  # hooks and fixes committed after the seed was written moved the context: retry with fuzz
+  if ! (cd "$wt" && patch -p1 --fuzz=3 -s < "$patch"); then echo "PATCH DOES NOT APPLY"; exit 8; fi
+  echo "NOTE: patch applied with fuzz (context moved since the seed was written)"
+fi
 rc=0
 for p in "$@"; do
   out=$(cd /verif && VERIF_REPO="$wt" ./check "$p" --tier "${TIER:-quick}" 2>&1); c=$?
